@@ -29,6 +29,17 @@ Theorem C20_x3d_coordindex_roundtrip :
 Proof. exact x3d_roundtrip. Qed.
 Print Assumptions C20_x3d_coordindex_roundtrip.
 
+(* STL: the facets the writer emits are, in order, the fan triangles (f0, f_k, f_k+1) of every face, each corner a vertex of the mesh *)
+Theorem C20_stl_roundtrip :
+  forall m, wf_mesh m = true -> parse_stl (nv m) (write_stl m) = Some (flat_map fan (faces m)).
+Proof. exact stl_roundtrip. Qed.
+Print Assumptions C20_stl_roundtrip.
+
+Example C20_stl_cube_face :
+  let m := {| nv := 8; faces := [[0;1;2;3]; [4;7;6;5]; [0;4;5;1]] |} in
+  wf_mesh m = true /\ parse_stl 8 (write_stl m) = Some [(0,1,2); (0,2,3); (4,7,6); (4,6,5); (0,4,5); (0,5,1)].
+Proof. vm_compute. split; reflexivity. Qed.
+
 Example C20_tetra :
   let m := {| nv := 4; faces := [[0;2;1]; [0;1;3]; [0;3;2]; [1;2;3]] |} in
   wf_mesh m = true /\ parse_obj (write_obj m) = Some m /\ parse_vtk (write_vtk m) = Some m.
